@@ -87,7 +87,8 @@ func init() {
 	for n, nm := range []string{"0", "1", "2", "exact-fit", "fit+1", "256", "300"} {
 		add(c03Op{name: "SetAdaptationFieldExtension(len " + nm + ")", kind: c03SetExt, n: n})
 	}
-	for n, nm := range []string{"empty", "all-fields", "pcr-only", "private-only", "extension+flags", "private-181"} {
+	for n, nm := range []string{"empty", "all-fields", "pcr-only", "private-only", "extension+flags", "private-181",
+		"splice-countdown-0xFF-only", "private-ending-FF-FF", "extension-ending-FF"} {
 		add(c03Op{name: "SetAdaptationField(" + nm + ")", kind: c03Copy, n: n})
 	}
 	// the same logical fields carried by a source packet whose adaptation_field_length is exactly the
@@ -109,12 +110,19 @@ func c03Source(n int) *ref.AF {
 		return &ref.AF{Private: []byte{0x11, 0x22, 0x33}}
 	case 4:
 		return &ref.AF{Disc: true, RAI: true, ESPrio: true, Ext: []byte{0x77, 0x88}}
-	default:
+	case 5:
 		b := make([]byte, 181)
 		for i := range b {
 			b[i] = byte(i)
 		}
 		return &ref.AF{Private: b}
+	// contents whose last bytes look like stuffing
+	case 6:
+		return &ref.AF{Splice: []byte{0xFF}}
+	case 7:
+		return &ref.AF{RAI: true, Private: []byte{0x11, 0xFF, 0xFF}}
+	default:
+		return &ref.AF{PCR: ref.PCRBytes(c03PCRMax), Ext: []byte{0x77, 0xFF}}
 	}
 }
 
@@ -653,7 +661,7 @@ func init() {
 		ID: "C03", Title: "Adaptation field stays a faithful ISO 13818-1 encoding under any edit history", Level: "model_checking",
 		Scenarios: []engine.ScenarioRunner{
 			c03BFS("all-lengths-shallow",
-				"BFS from the empty and 4 pre-populated adaptation fields of EVERY adaptation_field_length 1..183 (payload 183-len bytes, AF-only at 183), alphabet of 53 setter calls (3 indicators x2, 5 presence toggles x2, 3 PCR + 3 OPCR values and, for each, the value its getter reports at that moment, 4 splice values, private data / extension with lengths {0,1,2,exact fit,fit+1,256,300}, whole-field copy from 6 source packets with a 183-byte field and 5 whose field is exactly as long as its content); after every call bytes == reference serialisation and all getters of both APIs == model; states deduplicated on the 188 packet bytes; depth 2 (quick) / 3 (thorough)",
+				"BFS from the empty and 4 pre-populated adaptation fields of EVERY adaptation_field_length 1..183 (payload 183-len bytes, AF-only at 183), alphabet of 56 setter calls (3 indicators x2, 5 presence toggles x2, 3 PCR + 3 OPCR values and, for each, the value its getter reports at that moment, 4 splice values, private data / extension with lengths {0,1,2,exact fit,fit+1,256,300}, whole-field copy from 9 source packets (three whose content ends in 0xFF bytes) with a 183-byte field and 5 whose field is exactly as long as its content); after every call bytes == reference serialisation and all getters of both APIs == model; states deduplicated on the 188 packet bytes; depth 2 (quick) / 3 (thorough)",
 				func(r *engine.Run) []int { return c03Inits(seq(1, 183), []int{0, 1, 2, 3, 4}) },
 				func(r *engine.Run) int {
 					if r.Thorough() {
